@@ -15,6 +15,8 @@ Decided (wiring of the anchored mechanisms; DER bytes and punycode results are n
      subject attribute is added; digest comes from the digest parameter through get_digest; the SAN extension is
      pushed and added; SubjectAttribute::get_nid equals the 15-row oracle; config::SubjectAttributes::to_generic maps its
      15 fields to the like-named attributes.
+  Evaluation-first: R4 get_identifiers (A,B,C -> G(A),G(B),G(C)) and to_idna on ten sample names, R5 subject-attribute map.
+  W1: wire shape of newOrder from the derived Serialize impls. R5 also: nothing is set on the request after `sign`.
 """
 import json
 import os
@@ -29,13 +31,15 @@ from .c03 import new_key_flag_rule
 LEVEL = "other"
 TECHNIQUE = ("provenance with forbidden shrinkers/reorderers on the identifier lists, evaluation of the filter predicates and "
              "of the normalisation match over all IdentifierType variants, same-value rule for the CSR key, table extraction "
-             "of get_nid, field/variant pairing of the subject attributes")
+             "of get_nid, field/variant pairing of the subject attributes"
+             '; evaluation of get_identifiers / SubjectAttributes::to_generic / to_idna on samples; derived-Serialize shape of newOrder')
 LEVEL_TEXT = ("Decides for every configuration that the order and the CSR are fed from the whole configured identifier list "
               "with the right split and normalisation function, the same key for public key / signature / storage, every "
               "subject attribute under its own NID and the configured digest. The DER content, punycode output and signature "
               "validity are OpenSSL/std results and not decided.")
 LEVEL_NOTE = ("Not decided: DER of the CSR, self-signature validity, to_idna/IpAddr text on concrete names. Trusted: rustc MIR, "
-              "extractor, abstract interpreter, openssl crate builders.")
+              "extractor, abstract interpreter, openssl crate builders."
+              ' Evaluated rules are (sample-based: evaluation on the listed sample family is not a proof for all inputs; the structural rule is the fallback when the interpreter cannot run the code)')
 
 RC = "acmed::acme_proto::request_certificate"
 IDT = "acmed::identifier::IdentifierType"
